@@ -126,6 +126,28 @@ def gen_cases(ctx):
         add("transpose %s" % s, "deep")
         for n in (len(ds), 8, 9):
             add("permute_dims %s %s" % (s, ",".join(map(str, range(n)))), "deep")
+    # 2c. the uint32 wrap boundaries of the conv2d / pool2d extent arithmetic: (w-1)*dilation+1,
+    #     x + 2*padding, (.. - kernel)/stride + 1 around 2^31 / 2^32, on either spatial axis
+    def ceil_div(a, b):
+        return -(-a // b)
+    xs = (5, P32 - 1) if quick else (1, 5, 2 ** 31, P32 - 1)
+    pads = (0, 2 ** 31 + 1, P32 - 1) if quick else (0, 1, 2 ** 31, 2 ** 31 + 1, P32 - 1)
+    strides = (1, 2 ** 31) if quick else (1, 2, 2 ** 31, P32 - 1)
+    for kw in (2, 3, 4, 5, 6, 9):
+        dils = sorted(set([ceil_div(P32, kw - 1) - 1, ceil_div(P32, kw - 1), ceil_div(P32, kw - 1) + 1, 2 ** 30, 2 ** 31, 0x55555556, P32 - 1]))
+        dils = [d for d in dils if 1 <= d <= P32 - 1]
+        for d in dils:
+            for x in xs:
+                for pd in pads:
+                    for sd in strides:
+                        add("conv2d %s %s %d 0 %d 1 %d 1" % (st([x, 5], 1), st([kw, 1], 1), pd, sd, d), "conv2d-wrap")
+                        add("conv2d %s %s 0 %d 1 %d 1 %d" % (st([5, x], 1), st([1, kw], 1), pd, sd, d), "conv2d-wrap")
+    for win in (1, 2, 3, 2 ** 31, P32 - 1):
+        for x in (1, 5, 2 ** 31, P32 - 1):
+            for pd in (0, 1, 2 ** 31 - 1, 2 ** 31, 2 ** 31 + 1, P32 - 1):
+                for sd in (1, 2, 2 ** 31, P32 - 1):
+                    add("pool2d %s %d 1 %d 0 %d 1" % (st([x, 3], 1), win, pd, sd), "pool2d-wrap")
+                    add("pool2d %s 1 %d 0 %d 1 %d" % (st([3, x], 1), win, pd, sd), "pool2d-wrap")
     # 3. pairs (exhaustive over depth<=2 in quick, <=3 in thorough)
     ps = small_shapes(2 if quick else 3)
     for (d1, b1) in ps:
